@@ -2098,6 +2098,11 @@ func (s *ImmuStore) DiscardPrecommittedTxsSince(txID uint64) (int, error) {
 	}
 
 	defer func() {
+		// a commit allowance given to a discarded transaction is void
+		if s.commitAllowedUpToTxID > s.inmemPrecommittedTxID {
+			s.commitAllowedUpToTxID = s.inmemPrecommittedTxID
+		}
+
 		durablePrecommittedTxID, _, _ := s.durablePrecommitWHub.Status()
 		if durablePrecommittedTxID > s.inmemPrecommittedTxID {
 			s.durablePrecommitWHub.RecedeTo(s.inmemPrecommittedTxID)
